@@ -210,7 +210,7 @@ func (x *Exec) mathFacts(terms []*Term) []*Term {
 			case "rfn_erfc":
 				out = append(out, Gt(a, zero), Lt(a, mk("2.0", SReal)))
 			case "rfn_pow":
-				out = append(out, Implies(Gt(arg, zero), Gt(a, zero)))
+				out = append(out, Implies(Gt(arg, zero), Gt(a, zero)), Implies(Ge(arg, zero), Ge(a, zero)))
 			case "xfn_pow":
 				// positive base: the result is +Inf or a finite non-negative number (0 on underflow), or NaN for a NaN exponent
 				out = append(out, Implies(And(mk("xisfin", SBool, arg), Gt(mk("val", SReal, arg), zero), Not(mk("xisnan", SBool, a.Args[1]))),
